@@ -1,6 +1,7 @@
 (** Numeric wire encoding of events and outputs shared with harness/sm/main.go, and the
     projection of model outputs to what the harness prints per event:
-    (state-machine goroutine items with the emitted actions last, consensus-manager goroutine items). *)
+    (state-machine goroutine items, then the finalize requests and the emitted actions - both are recorded
+    by the harness goroutine when it receives them -, consensus-manager goroutine items). *)
 From Coq Require Import List NArith String Bool.
 From GV Require Import Base.Ints Gen.Math Gen.StepSM Model.StateMachine.
 Import ListNotations.
@@ -74,6 +75,7 @@ Definition is_cm_out (o : out) : bool :=
   match o with OEnterRound _ _ _ | OConsider _ _ _ _ | OChoose _ | ODecide _ _ _ _ _ _ _ => true | _ => false end.
 Definition is_emit (o : out) : bool :=
   match o with OEmitPrevote _ _ _ | OEmitPrecommit _ _ _ | OEmitPH _ _ _ => true | _ => false end.
+Definition is_finreq (o : out) : bool := match o with OFinalizeReq _ _ _ => true | _ => false end.
 Definition is_panic (o : out) : bool := match o with OPanic _ => true | _ => false end.
 
 (** What the harness prints for one event. A panic kills the harness process before it prints:
@@ -83,6 +85,6 @@ Definition project (os : list out) : list (list N) * list (list N) :=
   | p :: _ => ([enc_out p], [])
   | [] =>
       let smo := filter (fun o => negb (is_cm_out o)) os in
-      (map enc_out (filter (fun o => negb (is_emit o)) smo ++ filter is_emit smo),
+      (map enc_out (filter (fun o => negb (is_emit o || is_finreq o)) smo ++ filter is_finreq smo ++ filter is_emit smo),
        map enc_out (filter is_cm_out os))
   end.
